@@ -201,7 +201,59 @@ def record_axioms(seed: int, ntuples: int) -> List[List[dict]]:
             for kk, e in enumerate(tr):
                 e["k"] = kk
             traces.append(tr)
+        traces.extend(record_extra(rng, g, k, D, N, C, x, y, m))
     return traces
+
+
+def record_extra(rng, g, k, D, N, C, x, y, m) -> List[List[dict]]:
+    """Axiom instances for argument forms beyond (input, target, mask): separate source/target masks, loss modules with a normalisation factor."""
+    import deepali.losses.functional as L
+    import deepali.losses.image as LI
+    from deepali.core.math import max_difference
+
+    out = []
+    cap = lambda v: micro(max(min(float(v), 1999.0), -1999.0))  # noqa: E731
+    shape = x.shape
+
+    def trace(name, evs):
+        tr = [dict(ev="ax", ax="accepted", loss=name, exc=False, what="start")] + evs
+        for kk, e in enumerate(tr):
+            e["k"] = kk
+        out.append(tr)
+
+    # weighted LCC with distinct masks for the two images: exchanging (source, source_mask) with (target, target_mask) changes nothing,
+    # and intensities outside an image's own mask do not matter
+    ms = (torch.rand((N, 1) + shape[2:], generator=g) > 0.25).float()
+    mt = (torch.rand((N, 1) + shape[2:], generator=g) > 0.25).float()
+    evs = []
+    try:
+        f = lambda a, b, ma, mb: L.wlcc_loss(a, b, source_mask=ma, target_mask=mb, kernel_size=3)  # noqa: E731
+        v = f(x, y, ms, mt)
+        evs.append(dict(ev="ax", ax="symmetric", loss="wlcc_loss[masks]", D=D, N=N, C=C, v1=cap(v), v2=cap(f(y, x, mt, ms))))
+        yz = torch.where(mt.expand(shape) == 0, y + 7, y)
+        evs.append(dict(ev="ax", ax="invariant", loss="wlcc_loss[masks]", D=D, N=N, C=C, v1=cap(f(x, yz, ms, mt)), v2=cap(v), what="target changed outside target_mask"))
+        xz = torch.where(ms.expand(shape) == 0, x - 4, x)
+        evs.append(dict(ev="ax", ax="invariant", loss="wlcc_loss[masks]", D=D, N=N, C=C, v1=cap(f(xz, y, ms, mt)), v2=cap(v), what="source changed outside source_mask"))
+    except Exception as ex:
+        evs.append(dict(ev="ax", ax="accepted", loss="wlcc_loss[masks]", D=D, N=N, C=C, exc=True, what="source_mask/target_mask", err=f"{type(ex).__name__}: {ex}"[:120]))
+    trace("wlcc_loss[masks]", evs)
+    # loss modules with implicit normalisation: norm = max_difference(source, target)^2 from whichever images are given
+    s_img, t_img = x * 2 + 1, y + 3
+    for cls, fn in ((LI.L2ImageLoss, L.mse_loss), (LI.SSD, L.ssd_loss), (LI.L1ImageLoss, L.mae_loss)):
+        name = cls.__name__ + "[norm]"
+        evs = []
+        try:
+            base = float(fn(x, y))
+            for what, kw, pair in (("source and target", dict(source=s_img, target=t_img), (s_img, t_img)), ("source only", dict(source=s_img), (s_img, s_img)),
+                                   ("target only", dict(target=t_img), (t_img, t_img))):
+                nrm = float(max_difference(*pair).square())
+                evs.append(dict(ev="ax", ax="equals", loss=name, D=D, N=N, C=C, v1=cap(cls(**kw)(x, y)), v2=cap(base / nrm), what=f"norm from {what}"))
+            evs.append(dict(ev="ax", ax="equals", loss=name, D=D, N=N, C=C, v1=cap(cls(norm=False)(x, y)), v2=cap(base), what="norm=False"))
+            evs.append(dict(ev="ax", ax="equals", loss=name, D=D, N=N, C=C, v1=cap(cls(norm=4.0)(x, y)), v2=cap(base / 4.0), what="norm=4"))
+        except Exception as ex:
+            evs.append(dict(ev="ax", ax="accepted", loss=name, D=D, N=N, C=C, exc=True, what="module with norm", err=f"{type(ex).__name__}: {ex}"[:120]))
+        trace(name, evs)
+    return out
 
 
 def run(ctx: Ctx) -> None:
